@@ -92,8 +92,21 @@ func (e *env) doURL(method, url string) reqResult {
 	req.RequestURI = req.URL.RequestURI()
 	req.RemoteAddr = "192.0.2.1:1234"
 	rec := httptest.NewRecorder()
-	e.h.ServeHTTP(rec, req)
+	if p := serveRecovering(e.h, rec, req); p != "" {
+		// net/http would drop the connection: the client gets no response at all
+		return reqResult{599, []byte("handler panicked: " + p), http.Header{}}
+	}
 	return reqResult{rec.Code, rec.Body.Bytes(), rec.Result().Header}
+}
+
+func serveRecovering(h http.Handler, rw http.ResponseWriter, req *http.Request) (panicked string) {
+	defer func() {
+		if p := recover(); p != nil {
+			panicked = fmt.Sprint(p)
+		}
+	}()
+	h.ServeHTTP(rw, req)
+	return ""
 }
 
 // leaks reports the name of a stored blob whose bytes occur in body.
